@@ -520,6 +520,102 @@ func c16Determinism(chunk, chunks int) func(r *vp.InstResult) {
 	}
 }
 
+// c16DetImports: determinism for a service whose request / response types come from several imported Go
+// packages (the import-related parts of the output - reference declarations, import blocks - depend on more
+// than one package only here): 3 plain runs and runs under every controlled map iteration order must give
+// byte-identical files.
+func c16DetImports(r *vp.InstResult) {
+	pkgs := []string{"detimpa", "detimpb", "detimpc"}
+	extra := map[string]*descriptorpb.FileDescriptorProto{}
+	for k, v := range repoDescs() {
+		extra[k] = v
+	}
+	var msgFiles []string
+	for _, pkg := range pkgs {
+		msgFile := &descriptorpb.FileDescriptorProto{
+			Name:    proto.String(pkg + "/msgs.proto"),
+			Package: proto.String(pkg),
+			Syntax:  proto.String("proto3"),
+			Options: &descriptorpb.FileOptions{GoPackage: proto.String("genmod/" + pkg)},
+		}
+		for _, m := range []string{"Req", "Resp"} {
+			msgFile.MessageType = append(msgFile.MessageType, &descriptorpb.DescriptorProto{
+				Name: proto.String(m),
+				Field: []*descriptorpb.FieldDescriptorProto{{
+					Name: proto.String("value"), Number: proto.Int32(1), JsonName: proto.String("value"),
+					Label: descriptorpb.FieldDescriptorProto_LABEL_OPTIONAL.Enum(), Type: descriptorpb.FieldDescriptorProto_TYPE_STRING.Enum(),
+				}},
+			})
+		}
+		extra[msgFile.GetName()] = msgFile
+		msgFiles = append(msgFiles, msgFile.GetName())
+	}
+	legal := legalMethods()
+	for shift := 0; shift < 3; shift++ {
+		spec := gen.ServiceSpec{Pkg: fmt.Sprintf("detimp%d", shift), Service: "Svc", Messages: []string{"Local"}}
+		for i, m := range legal {
+			m.Name = fmt.Sprintf("M%d", i)
+			m.In = "." + pkgs[(i+shift)%3] + ".Req"
+			m.Out = "." + pkgs[(i/2+shift+1)%3] + ".Resp"
+			if i%5 == 4 {
+				m.Out = ".google.protobuf.Empty"
+			}
+			if m.CustomRet != "" {
+				m.CustomRet = "Local"
+			}
+			spec.Methods = append(spec.Methods, m)
+		}
+		fd := spec.File()
+		fd.Dependency = append(fd.Dependency, msgFiles...)
+		deps, err := gen.Deps(fd, extra)
+		if err != nil {
+			r.Error = err.Error()
+			return
+		}
+		label := fmt.Sprintf("types from three imported packages (shift %d)", shift)
+		base, err := gen.Run(plugin("protoc-gen-gorums"), nil, fd, deps, "")
+		if err != nil {
+			r.Error = err.Error()
+			return
+		}
+		r.Execs++
+		if base.Exit != 0 || base.Error != "" {
+			diag, _ := base.Diagnostic()
+			addViol(r, "C16/legal-rejected", label, fmt.Sprintf("%s: rejected: %s", label, firstLine(diag)), nil)
+			continue
+		}
+		for rep := 0; rep < 2; rep++ {
+			c, err := gen.Run(plugin("protoc-gen-gorums"), nil, fd, deps, "")
+			r.Execs++
+			if err != nil {
+				r.Error = err.Error()
+				return
+			}
+			if d, ok := sameFiles(base.Files, c.Files); !ok {
+				addViol(r, "C16/nondeterministic-output", label, fmt.Sprintf("%s: two runs of the plugin on the same request differ: %s", label, d), nil)
+			}
+		}
+		for _, o := range []string{"", "rev", "rot1", "rot2", "rot3"} {
+			var env []string
+			if o != "" {
+				env = []string{"GOMC_MAPORDER=" + o}
+			}
+			c, err := gen.Run(plugin("protoc-gen-gorums-mc"), env, fd, deps, "")
+			r.Execs++
+			if err != nil {
+				r.Error = err.Error()
+				return
+			}
+			if d, ok := sameFiles(base.Files, c.Files); !ok {
+				addViol(r, "C16/output-depends-on-map-order", label, fmt.Sprintf("%s: with map iteration order %q at the generator's map ranges the output differs: %s", label, o, d), nil)
+			}
+			r.Outcomes["order:"+o]++
+		}
+	}
+	r.States, r.Steps = r.Execs, r.Execs
+	r.Sample = map[string]any{"service": "22 legal methods whose request / response types are spread over three imported Go packages and emptypb", "runs": "3 plain runs + 5 runs with controlled map iteration orders", "expected": "byte-identical files"}
+}
+
 // c16MultiFile: one request that generates two files. The plugin must treat the files
 // independently: each file's output equals what a request for that file alone produces.
 func c16MultiFile(chunk, chunks int) func(r *vp.InstResult) {
@@ -772,7 +868,7 @@ func c16Zorums(r *vp.InstResult) {
 
 func init() {
 	checks["C16"] = &check{
-		rule:        "small-scope enumeration of proto service definitions fed to the plugin built from the working tree (requests built from synthesised descriptors, no protoc): (a) single-method services over the full lattice of 512 option combinations {quorumcall, async, correctable, multicast, unicast, per_node_arg, custom_return_type, client stream, server stream} x 4 message shapes {local, imported Empty in, imported Empty out, same message}; (b) two-method services over all 484 ordered pairs of the 22 legal combinations with shared and with distinct message types; (c) reserved and unusual identifier spellings for messages, services, methods, plus an enum; services whose request / response types are imported from a Go package named like one the generated or static code imports (encoding, fmt, gorums, context, proto, ...); (d) determinism: 3 plain runs and runs of a plugin whose map ranges are routed through a controlled iteration order {sorted, reversed, rotations} on legal single / two-method services and on every proto file of the repository; (e) all 484 ordered pairs of legal single-method files with the same method name requested in ONE CodeGeneratorRequest, each output compared with a single-file run; oracle: legality model of doc/method-options.md - legal must be accepted and compile (go build of all emitted packages together with protoc-gen-go output against /repo), documented-illegal and reserved names must end with a diagnostic (not a Go panic), everything else must be rejected or compile; outputs byte-identical across runs and orders; an outcome is (class, plugin result class)",
+		rule:        "small-scope enumeration of proto service definitions fed to the plugin built from the working tree (requests built from synthesised descriptors, no protoc): (a) single-method services over the full lattice of 512 option combinations {quorumcall, async, correctable, multicast, unicast, per_node_arg, custom_return_type, client stream, server stream} x 4 message shapes {local, imported Empty in, imported Empty out, same message}; (b) two-method services over all 484 ordered pairs of the 22 legal combinations with shared and with distinct message types; (c) reserved and unusual identifier spellings for messages, services, methods, plus an enum; services whose request / response types are imported from a Go package named like one the generated or static code imports (encoding, fmt, gorums, context, proto, ...); (d) determinism: 3 plain runs and runs of a plugin whose map ranges are routed through a controlled iteration order {sorted, reversed, rotations} on legal single / two-method services, on a service whose types are spread over three imported packages, and on every proto file of the repository; (e) all 484 ordered pairs of legal single-method files with the same method name requested in ONE CodeGeneratorRequest, each output compared with a single-file run; oracle: legality model of doc/method-options.md - legal must be accepted and compile (go build of all emitted packages together with protoc-gen-go output against /repo), documented-illegal and reserved names must end with a diagnostic (not a Go panic), everything else must be rejected or compile; outputs byte-identical across runs and orders; an outcome is (class, plugin result class)",
 		assumptions: []string{"descriptors are synthesised programmatically with gorums' extension numbers; protoc's own validation is not in the loop", "'compiles' = go build of the generated package with the protoc-gen-go output of the same file against /repo's runtime"},
 		gen: func(tier string) []instance {
 			var out []instance
@@ -796,6 +892,7 @@ func init() {
 				out = append(out, instance{fmt.Sprintf("determinism/chunk%d-of-%d", c, dc), c16Determinism(c, dc)})
 			}
 			out = append(out, instance{"determinism/repository-protos", c16Zorums})
+			out = append(out, instance{"determinism/types-from-several-imported-packages", c16DetImports})
 			for c := 0; c < 4; c++ {
 				out = append(out, instance{fmt.Sprintf("multi-file-request/chunk%d-of-4", c), c16MultiFile(c, 4)})
 			}
